@@ -267,6 +267,10 @@ def m_hlp_rules(ret=""):
             # get_thread_id_data(id)->member(args)  ->  td_member(get_thread_id_data(id), args)
             Call(r"\bget_thread_id_data\(\s*(\w+)\s*\)\s*->\s*(\w+)",
                  lambda args, env: "td_%s(%s)" % (env["h2"], ", ".join(["get_thread_id_data(%s)" % env["h1"]] + args)), None),
+            # the same through a named local: `thread_data* [const] td = get_thread_id_data(id); td->member(args)`
+            Sub(r"(?:\w+::)*thread_data\s*\*\s*(const\s+)?(\w+)\s*=", r"struct thread_data *\1\2 =", None),
+            Call(r"(?<![\w.>:])(\w+)\s*->\s*(interrupt|interruption_point|interruption_enabled|interruption_requested|set_interruption_enabled)",
+                 lambda args, env: "td_%s(%s)" % (env["h2"], ", ".join([env["h1"]] + args)), None),
             # callees that may throw, called as statements: leave if an exception is in flight
             M_Call0(r"(?<![\w.>:])(td_interrupt|td_interruption_point|set_thread_state)", "{ {h1}({args}); if (vx_exc) VX_PROPAGATE; }", stmt=True),
             m_propagate(ret), Auto(None)]
